@@ -333,3 +333,82 @@ func C20DecodeFrom() {
 }
 
 func zzLE32(x uint32) []byte { return []byte{byte(x), byte(x >> 8), byte(x >> 16), byte(x >> 24)} }
+
+type zzSrcReordered struct {
+	Name  string
+	Flags []uint8
+	Count int16
+}
+
+type zzTwoInts struct {
+	A int32
+	B int32
+}
+type zzTwoIntsSwapped struct {
+	B int16
+	A int16
+}
+type zzTwoIntsWide struct {
+	A int64
+	B int64
+}
+
+// C20Sequences: conversion is a function of the two values only, whatever was converted before in
+// the same process: (a) the same destination TYPE is filled from two source struct types that order
+// their fields differently; (b) a destination VALUE is reused: converting an empty (or shorter) list
+// into a holder that still contains the previous result leaves exactly the new contents.
+func C20Sequences() {
+	switch sym.Choose("sequence", 3) {
+	case 0:
+		a := zzSrcStruct{Count: sym.I16("count1"), Name: sym.Str("name1", 1), Flags: []uint8{sym.U8("f1")}}
+		b := zzSrcReordered{Count: sym.I16("count2"), Name: sym.Str("name2", 1), Flags: []uint8{sym.U8("f2")}}
+		var d1, d2 zzDstStruct
+		first := sym.Bool("reordered-source-first")
+		if first {
+			sym.Assert(ConvertFrom(&d2, b) == nil, "sequence/second-source-ok")
+			sym.Assert(ConvertFrom(&d1, a) == nil, "sequence/first-source-ok")
+		} else {
+			sym.Assert(ConvertFrom(&d1, a) == nil, "sequence/first-source-ok")
+			sym.Assert(ConvertFrom(&d2, b) == nil, "sequence/second-source-ok")
+		}
+		sym.Assert(sym.And(d1.COUNT == int64(a.Count), sym.EqStr(d1.Name, a.Name)), "sequence/first-source-fields")
+		sym.Assert(sym.And(d2.COUNT == int64(b.Count), sym.EqStr(d2.Name, b.Name)), "sequence/second-source-fields")
+		sym.Assert(len(d1.Flags) == 1 && len(d2.Flags) == 1, "sequence/flags-len")
+		if len(d1.Flags) == 1 && len(d2.Flags) == 1 {
+			sym.Assert(sym.And(d1.Flags[0] == uint32(a.Flags[0]), d2.Flags[0] == uint32(b.Flags[0])), "sequence/flags")
+		}
+	case 1:
+		// same kinds in both orders: a stale field mapping would swap silently
+		x := zzTwoInts{A: sym.I32("a"), B: sym.I32("b")}
+		y := zzTwoIntsSwapped{A: sym.I16("sa"), B: sym.I16("sb")}
+		var w1, w2 zzTwoIntsWide
+		sym.Assert(ConvertFrom(&w1, x) == nil, "sequence/ints-ok")
+		sym.Assert(ConvertFrom(&w2, y) == nil, "sequence/swapped-ints-ok")
+		sym.Assert(sym.And(w1.A == int64(x.A), w1.B == int64(x.B)), "sequence/ints-fields")
+		sym.Assert(sym.And(w2.A == int64(y.A), w2.B == int64(y.B)), "sequence/swapped-ints-fields")
+	default:
+		// a reused destination holder
+		holder := [][]int64{}
+		first := [][]int16{{sym.I16("p0"), sym.I16("p1")}, {sym.I16("p2")}}
+		sym.Assert(ConvertFrom(&holder, first) == nil, "reuse/first-ok")
+		sym.Assert(len(holder) == 2 && len(holder[0]) == 2 && len(holder[1]) == 1, "reuse/first-shape")
+		var second [][]int16
+		switch sym.Choose("second", 3) {
+		case 0:
+			second = [][]int16{} // empty
+		case 1:
+			second = [][]int16{{}} // one empty row
+		default:
+			second = [][]int16{{sym.I16("q0")}, {}}
+		}
+		sym.Assert(ConvertFrom(&holder, second) == nil, "reuse/second-ok")
+		sym.Assert(len(holder) == len(second), "reuse/outer-length")
+		for i := 0; i < len(second) && i < len(holder); i++ {
+			sym.Assert(len(holder[i]) == len(second[i]), "reuse/inner-length")
+			for j := 0; j < len(second[i]) && j < len(holder[i]); j++ {
+				sym.Assert(holder[i][j] == int64(second[i][j]), "reuse/element")
+			}
+		}
+	}
+	sym.Reach("sequences-done")
+}
